@@ -515,11 +515,16 @@ impl Ctx {
             println!("KNOWN-FINDING: property={} {} ({} cases)", self.id, k, n);
         }
         if !g.machinery.is_empty() {
-            for m in &g.machinery {
-                eprintln!("MACHINERY: {}", m);
+            for m in g.machinery.iter().take(5) {
                 println!("MACHINERY-ERROR property={} {}", self.id, m);
             }
-            return 2;
+            if g.machinery.len() > 5 {
+                println!("MACHINERY-ERROR property={} ... and {} more", self.id, g.machinery.len() - 5);
+            }
+            // a violation found elsewhere in the same run is still a verdict
+            if new_viol.is_empty() {
+                return 2;
+            }
         }
         if new_viol.is_empty() {
             println!(
